@@ -667,6 +667,68 @@ def gen_bvconcrete(repo):
     return "\n\n".join(out) + "\n"
 
 
+
+
+# ----------------------------------------------------------------------------------------------
+# backend_vsa/strided_interval.py : the static integer helpers
+# ----------------------------------------------------------------------------------------------
+
+SI_HELPERS = [  # (name, params, ret) in dependency order
+    ("_modular_add", [("a", Z), ("b", Z), ("bits", Z)], Z),
+    ("_modular_sub", [("a", Z), ("b", Z), ("bits", Z)], Z),
+    ("_modular_mul", [("a", Z), ("b", Z), ("bits", Z)], Z),
+    ("highbit", [("k", Z)], Z),
+    ("max_int", [("k", Z)], Z),
+    ("min_int", [("k", Z)], Z),
+    ("signed_max_int", [("k", Z)], Z),
+    ("signed_min_int", [("k", Z)], Z),
+    ("_to_negative", [("a", Z), ("bits", Z)], Z),
+    ("upper", [("bits", Z), ("i", Z), ("stride", Z)], Z),
+    ("lower", [("bits", Z), ("i", Z), ("stride", Z)], Z),
+    ("_wrapped_cardinality", [("x", Z), ("y", Z), ("bits", Z)], Z),
+    ("_is_msb_zero", [("v", Z), ("bits", Z)], B),
+    ("_is_msb_one", [("v", Z), ("bits", Z)], B),
+    ("_get_msb", [("v", Z), ("bits", Z)], Z),
+    ("_unsigned_to_signed", [("v", Z), ("bits", Z)], Z),
+    ("_lex_lte", [("x", Z), ("y", Z), ("bits", Z)], B),
+    ("_lex_lt", [("x", Z), ("y", Z), ("bits", Z)], B),
+]
+
+
+def si_attr_hook(cx, e, env):
+    # StridedInterval.<static>(...) calls
+    if isinstance(e, ast.Call) and isinstance(e.func, ast.Attribute) and ast.unparse(e.func.value) == "StridedInterval":
+        call = ast.Call(func=ast.Name(id=e.func.attr, ctx=ast.Load()), args=e.args, keywords=e.keywords)
+        ast.copy_location(call, e)
+        ast.fix_missing_locations(call)
+        return tr_expr(cx, call, env)
+    return None
+
+
+@generator("SIHelpers")
+def gen_sihelpers(repo):
+    path = os.path.join(repo, "claripy/backends/backend_vsa/strided_interval.py")
+    tree = ast.parse(open(path).read())
+    cls = [n for n in tree.body if isinstance(n, ast.ClassDef) and n.name == "StridedInterval"]
+    if len(cls) != 1:
+        raise TranslateError("class StridedInterval not found")
+    meths = {n.name: n for n in cls[0].body if isinstance(n, ast.FunctionDef)}
+    cx = Ctx()
+    cx.attr_hook = si_attr_hook
+    out = [HEADER % "claripy/backends/backend_vsa/strided_interval.py (static helpers)"]
+    for (nm, params, ret) in SI_HELPERS:
+        f = meths.get(nm)
+        if f is None:
+            raise TranslateError("%s not found" % nm)
+        if [ast.unparse(d) for d in f.decorator_list] != ["staticmethod"]:
+            raise TranslateError("%s is no longer a staticmethod" % nm)
+        spec = Fn(nm, "si_" + nm.lstrip("_"), params, ret)
+        f2 = ast.FunctionDef(name=f.name, args=f.args, body=f.body, decorator_list=[], returns=None, type_comment=None)
+        out.append(tr_function(cx, f2, spec))
+        cx.fns[nm] = spec
+    return "\n\n".join(out) + "\n"
+
+
 if __name__ == "__main__":
     import sys
     print(GENERATORS[sys.argv[1]](sys.argv[2] if len(sys.argv) > 2 else "/repo"))
